@@ -63,46 +63,67 @@ func (r *Runner) judgeVerify(op *ClientOp) {
 	r.feat("verify-ok")
 	in := op.inst
 	T := op.termAtInvoke
-	cfg, _ := sim.LatestCfgInDisk(in.DiskLocked(), false)
-	voters := map[string]bool{}
-	for _, s := range cfg.Servers {
-		if s.Suffrage == raft.Voter {
-			voters[string(s.ID)] = true
-		}
+	cfgNow, _ := sim.LatestCfgInDisk(in.DiskLocked(), false)
+	// the voter set may change while the call is in progress: it is enough
+	// that the quorum of one configuration in force during the call was met
+	type verdict struct {
+		ok, freshOK bool
+		sig, detail string
 	}
-	quorum := len(voters)/2 + 1
-	got, fresh := map[string]bool{}, map[string]bool{}
-	nonvoterAck := false
-	for _, a := range w.O.Acks(in.ID()) {
-		if !a.Success || a.Term != T || a.RecvSeq <= op.InvokeSeq || a.RecvSeq > op.ReturnSeq {
-			continue
+	judge := func(cfg raft.Configuration) verdict {
+		voters := map[string]bool{}
+		for _, s := range cfg.Servers {
+			if s.Suffrage == raft.Voter {
+				voters[string(s.ID)] = true
+			}
 		}
-		if !voters[a.Peer] {
-			nonvoterAck = true
-			continue
+		quorum := len(voters)/2 + 1
+		got, fresh := map[string]bool{}, map[string]bool{}
+		nonvoterAck := false
+		for _, a := range w.O.Acks(in.ID()) {
+			if !a.Success || a.Term != T || a.RecvSeq <= op.InvokeSeq || a.RecvSeq > op.ReturnSeq {
+				continue
+			}
+			if !voters[a.Peer] {
+				nonvoterAck = true
+				continue
+			}
+			got[a.Peer] = true
+			if a.AckSeq > op.InvokeSeq {
+				fresh[a.Peer] = true
+			}
 		}
-		got[a.Peer] = true
-		if a.AckSeq > op.InvokeSeq {
-			fresh[a.Peer] = true
+		self := 0
+		if voters[in.ID()] {
+			self = 1
 		}
+		v := verdict{ok: len(got)+self >= quorum, freshOK: len(fresh)+self >= quorum}
+		if !v.ok {
+			v.sig = "C09/R1/success-without-voter-majority"
+			if nonvoterAck {
+				v.sig = "C09/R1/acks-from-nonvoters-counted"
+			}
+			if self == 0 {
+				v.sig = "C09/R1/leader-not-a-voter-counts-itself"
+			}
+			v.detail = fmt.Sprintf("voters {%v} quorum %d; voters that acknowledged inside the call window: %v (+self=%d); non-voter acks seen: %v", keys(voters), quorum, keys(got), self, nonvoterAck)
+		} else if !v.freshOK {
+			v.sig = "C09/R3/counted-acknowledgements-made-before-the-call"
+			v.detail = fmt.Sprintf("only %v acknowledged (handled a request) after the call was made (quorum %d, +self=%d); %v answered in the window", keys(fresh), quorum, self, keys(got))
+		}
+		return v
 	}
-	self := 0
-	if voters[in.ID()] {
-		self = 1
-	}
-	if len(got)+self < quorum {
-		sig := "C09/R1/success-without-voter-majority"
-		if nonvoterAck {
-			sig = "C09/R1/acks-from-nonvoters-counted"
+	a, b := judge(cfgNow), judge(op.cfgAtInvoke)
+	switch {
+	case a.ok && a.freshOK, b.ok && b.freshOK:
+	case a.ok || b.ok:
+		v := a
+		if !a.ok {
+			v = b
 		}
-		if self == 0 {
-			sig = "C09/R1/leader-not-a-voter-counts-itself"
-		}
-		w.ViolateLocked("C09", "R1", sig, "VerifyLeader #%d on %s (term %d) returned nil; voters {%v} quorum %d; voters that acknowledged inside the call window: %v (+self=%d); non-voter acks seen: %v",
-			op.ID, in.ID(), T, keys(voters), quorum, keys(got), self, nonvoterAck)
-	} else if len(fresh)+self < quorum {
-		w.ViolateLocked("C09", "R3", "C09/R3/counted-acknowledgements-made-before-the-call", "VerifyLeader #%d on %s (term %d) returned nil; only %v acknowledged (handled a request) after the call was made (quorum %d, +self=%d); %v answered in the window",
-			op.ID, in.ID(), T, keys(fresh), quorum, self, keys(got))
+		w.ViolateLocked("C09", "R3", v.sig, "VerifyLeader #%d on %s (term %d) returned nil; %s", op.ID, in.ID(), T, v.detail)
+	default:
+		w.ViolateLocked("C09", "R1", a.sig, "VerifyLeader #%d on %s (term %d) returned nil; configuration at return: %s; configuration at invoke: %s", op.ID, in.ID(), T, a.detail, b.detail)
 	}
 	for _, l := range w.O.Leaders() {
 		if l.Term > T && l.Seq < op.InvokeSeq && l.Srv != in.ID() {
@@ -266,7 +287,11 @@ func (r *Runner) quietPhase() {
 	done, err := op.Done, op.err
 	w.Mu.Unlock()
 	if !done || err != nil {
-		w.Violate("C12", "R1", "C12/R1/no-write-accepted-after-quiet-period", "write on leader %s %d ms after faults stopped: done=%v err=%v; %s", L.ID(), w.Now()-quietStart, done, err, r.describe())
+		sig := "C12/R1/no-write-accepted-after-quiet-period"
+		if d := r.diagnoseNoLeader(); d != "" {
+			sig = "C12/R1/no-leader:" + d
+		}
+		w.Violate("C12", "R1", sig, "write on leader %s %d ms after faults stopped: done=%v err=%v; %s", L.ID(), w.Now()-quietStart, done, err, r.describe())
 		return
 	}
 	// R2: every running member of the leader's configuration reaches its state
@@ -416,6 +441,27 @@ func (r *Runner) diagnoseNoLeader() string {
 		last[id] = l
 		if l.term > best.term || (l.term == best.term && l.idx > best.idx) {
 			best = l
+		}
+	}
+	// a server without pre-vote whose term runs ahead of everybody else's and
+	// whose log is behind: it cannot win, every leader that contacts it steps
+	// down (without adopting its term), and its own vote requests are refused
+	// while the others know a leader.
+	var maxOther uint64
+	for _, id := range r.ids {
+		if in := w.Servers[id].Inst; in != nil && !in.DeadLocked() && !in.Conf.PreVoteDisabled {
+			if t := in.R.CurrentTerm(); t > maxOther {
+				maxOther = t
+			}
+		}
+	}
+	for _, id := range r.ids {
+		in := w.Servers[id].Inst
+		if in == nil || in.DeadLocked() || !in.Conf.PreVoteDisabled {
+			continue
+		}
+		if in.R.CurrentTerm() > maxOther && last[id] != best {
+			return "server-without-pre-vote-holds-a-higher-term-and-a-stale-log-and-deposes-every-leader"
 		}
 	}
 	holders, stuck := 0, 0
